@@ -1586,7 +1586,17 @@ def r15_declared_ranges_need_a_versioned_server(ctx):
     c01.r7_versioned_routes_need_versioned_server(Renamed(ctx, "C19.R15", "a declaration with a `versions` range is never served by a server that cannot tell versions apart: the router records it stickily and an unversioned server refuses it"))
 
 
-RULES = [("C19.R15", r15_declared_ranges_need_a_versioned_server), ("C19.R14", r14_declared_range_is_routed_by_the_request_version), ("C19.R13", r13_declared_content_type_is_documented_through_tuples), ("C19.R12", r12_extension_declared_is_extension_documented), ("C19.R11", r11_tag_policy_as_declared), ("C19.R10", r10_document_uses_the_version_filter_everywhere), ("C19.R9", r9_declared_body_limit_is_the_effective_limit), ("C19.R1", r1_one_producer), ("C19.R2a", r2a_validate), ("C19.R2b", r2b_emission), ("C19.R3", r3_builders),
+def r16_overlapping_declarations_are_refused(ctx):
+    """`the version range written on a declaration is what the server routes by`: two declarations for the same path and method whose
+    ranges share a version are refused at registration, so no request can be routed to a declaration other than the one whose range it
+    is in.  This is C05.E2, re-evaluated here (adversary change C19-N: the From-vs-FromUntil arms of overlaps_with lost `x <= a ||`, so
+    `"1.0.0"..` and `"2.0.0".."3.0.0"` both registered and the first one answered 2.5.0)."""
+    from . import c05
+    from .lib_c01 import Renamed
+    c05.e2_overlaps(Renamed(ctx, "C19.R16", "overlaps_with(r1, r2) holds exactly when some version lies in both declared ranges, for every pair of range kinds and every order of their bounds"))
+
+
+RULES = [("C19.R16", r16_overlapping_declarations_are_refused), ("C19.R15", r15_declared_ranges_need_a_versioned_server), ("C19.R14", r14_declared_range_is_routed_by_the_request_version), ("C19.R13", r13_declared_content_type_is_documented_through_tuples), ("C19.R12", r12_extension_declared_is_extension_documented), ("C19.R11", r11_tag_policy_as_declared), ("C19.R10", r10_document_uses_the_version_filter_everywhere), ("C19.R9", r9_declared_body_limit_is_the_effective_limit), ("C19.R1", r1_one_producer), ("C19.R2a", r2a_validate), ("C19.R2b", r2b_emission), ("C19.R3", r3_builders),
          ("C19.R4", r4_new_vs_stub), ("C19.R5", r5_tables), ("C19.R6", r6_document), ("C19.R7", r7_versions), ("C19.R8", r8_doc_lines)]
 
 _M = "dropshot_endpoint/src/metadata.rs"
